@@ -1,5 +1,6 @@
 \* C15: all histories of 4 PRF calls (2 keys x 2 counters x 2 types, 3 evaluator instances) + fixed histories
 CONSTANT HistLen = 4
+CONSTANT GenLevel = 1
 SPECIFICATION PSpec
 INVARIANT TableIsHistoryFree
 INVARIANT EmitHist
